@@ -1553,3 +1553,64 @@ Module GrowthExamples.
     = [99;97;108;108;101;100;32;96;69;58;58;117;110;119;114;97;112;95;98;40;41;96;32;111;110;32;97;32;96;69;58;58;100;96;32;118;97;108;117;101]%N.
   Proof. reflexivity. Qed.
 End GrowthExamples.
+
+(* ------------------------------------------------------------------ coherence of the rendered Self types *)
+
+Lemma NoDup_map_inj_in {A B} (f : A -> B) l :
+  (forall x y, In x l -> In y l -> f x = f y -> x = y) -> NoDup l -> NoDup (map f l).
+Proof.
+  induction l as [|a l IH]; intros Hinj Hnd; cbn; [constructor|].
+  inversion Hnd as [|? ? Hni Hnd']; subst. constructor.
+  - intros Hin. apply in_map_iff in Hin as (x & Hx & Hin). apply Hni.
+    rewrite (Hinj a x); auto; [left; reflexivity|right; exact Hin].
+  - apply IH; auto. intros x y Hx Hy. apply Hinj; right; assumption.
+Qed.
+
+(** as long as no by-value impl has a single tuple-typed field as its whole target, the impls rustc sees are
+    pairwise distinct (same reference kind, same rendered Self type -> same impl) *)
+Theorem try_into_coherent_rendered tuple_of e ims :
+  expand_try_into e = EOk ims ->
+  (forall im t, In im ims -> ti_mode im = MMove -> ti_types im = [t] -> tuple_of t = None) ->
+  NoDup (map (fun im => (ti_mode im, target tuple_of (ti_mode im) (ti_types im))) ims).
+Proof.
+  intros Hex Hno. pose proof (try_into_coherent _ _ Hex) as Hnd.
+  set (g := fun k : smode * list N => (fst k, target tuple_of (fst k) (snd k))).
+  assert (Hinj : forall x y, In x (map (fun im => (ti_mode im, ti_types im)) ims) ->
+                             In y (map (fun im => (ti_mode im, ti_types im)) ims) -> g x = g y -> x = y).
+  { intros [m1 l1] [m2 l2] H1 H2 E. unfold g in E; cbn in E. inversion E as [[Em Et]]; subst m2. f_equal.
+    apply in_map_iff in H1 as (im1 & E1 & Hi1). apply in_map_iff in H2 as (im2 & E2 & Hi2).
+    inversion E1; subst. inversion E2 as [[Em2 El2]]. subst l2.
+    assert (Hs : forall im l, In im ims -> ti_mode im = ti_mode im1 -> ti_types im = l ->
+                 forall t, l = [t] -> target tuple_of (ti_mode im1) l = RSingle t).
+    { intros im l Hi Hm Hl t El. rewrite El in *. cbn. destruct (ti_mode im1) eqn:Emode; try reflexivity.
+      rewrite (Hno im t Hi) by (assumption || congruence). reflexivity. }
+    destruct (ti_types im1) as [|a [|b r]] eqn:T1; destruct (ti_types im2) as [|c [|d r']] eqn:T2;
+      try (cbn in Et; congruence);
+      repeat match goal with
+             | H : ti_types im1 = [?x] |- _ => rewrite (Hs im1 [x] Hi1 eq_refl H x eq_refl) in Et; clear H
+             | H : ti_types im2 = [?x] |- _ => rewrite (Hs im2 [x] Hi2 Em2 H x eq_refl) in Et; clear H
+             end; cbn in Et; congruence. }
+  pose proof (NoDup_map_inj_in g _ Hinj Hnd) as H. rewrite map_map in H. exact H.
+Qed.
+
+(** ... and without that hypothesis they are not: [enum E { C((T0, T1)), N(T0, T1) }] gets two impls of
+    [TryFrom<E> for (T0, T1)] (rustc: E0119) - KNOWN_FINDINGS try-into-tuple-field-collides *)
+Definition ttc_enum : enum :=
+  {| e_attr := None;
+     e_variants := [ {| v_ident := {| id_raw := false; id_name := [99]%N |}; v_kind := KTuple;
+                        v_fields := [ {| f_ty := 2%N; f_attr := None |} ]; v_attr := None |};
+                     {| v_ident := {| id_raw := false; id_name := [110]%N |}; v_kind := KTuple;
+                        v_fields := [ {| f_ty := 0%N; f_attr := None |}; {| f_ty := 1%N; f_attr := None |} ]; v_attr := None |} ] |}.
+Definition ttc_tuple_of (t : N) : option (list N) := if N.eqb t 2 then Some [0%N; 1%N] else None.
+
+Theorem try_into_tuple_field_collides_refuted :
+  exists tuple_of e ims im1 im2, wf_enum e /\ expand_try_into e = EOk ims /\ In im1 ims /\ In im2 ims /\
+    ti_types im1 <> ti_types im2 /\ ti_mode im1 = ti_mode im2 /\
+    target tuple_of (ti_mode im1) (ti_types im1) = target tuple_of (ti_mode im2) (ti_types im2).
+Proof.
+  exists ttc_tuple_of, ttc_enum. eexists. eexists. eexists.
+  split. { split; [unfold names; cbn; repeat constructor; cbn; intuition discriminate|repeat constructor; intros H; discriminate]. }
+  split; [vm_compute; reflexivity|].
+  split; [left; reflexivity|]. split; [right; left; reflexivity|].
+  split; [cbn; discriminate|]. split; reflexivity.
+Qed.
